@@ -410,6 +410,9 @@ class DecayMegacomplexMatrix(Contract):
                 S.require(L.not_(L.eq(ks[i], ks[i2])), "distinct rates")
         rates = [Parameter(label=f"k.{i+1}", value=v) for i, v in enumerate(ks)]
         t = np.array([0.0, 1.5])[: case["nt"]]
+        if case.get("axis_dtype"):
+            # native sweep: axes as loaded from files (integer time / wavelength coordinates)
+            t = np.array([0, 1, 3]).astype(case["axis_dtype"])
         if kind == "decay-sequential":
             mc = DecaySequentialMegacomplex(label="mc", compartments=names, rates=rates)
             dm = DecayDatasetModel(label="ds", megacomplex=[mc])
@@ -474,7 +477,7 @@ class DecayMegacomplexMatrix(Contract):
 
     def call(self, S, case, inp):
         mc, dm, t = inp["mc"], inp["dm"], inp["t"]
-        labels, M = mc.calculate_matrix(dm, np.array([0.0]), t)
+        labels, M = mc.calculate_matrix(dm, np.array([0.0]).astype(case.get("axis_dtype", "float64")), t)
         A = mc.get_a_matrix(dm)
         r = mc.get_k_matrix().rates(mc.get_compartments(dm), mc.get_initial_concentration(dm))
         return {"labels": list(labels), "M": np.asarray(M, dtype=object if S.symbolic else float), "A": np.asarray(A, dtype=object if S.symbolic else float), "r": np.asarray(r, dtype=object if S.symbolic else float)}
@@ -515,6 +518,7 @@ def _decay_matrix_sweep(self, tier, seed):
     from contracts.common import native_sweep
 
     cases = [{"kind": kind, "n": n, "nt": 2} for kind in ("decay-sequential", "decay-parallel", "decay-chain") for n in ((4, 6) if tier == "quick" else (4, 5, 6, 8))]
+    cases += [{"kind": kind, "n": 3, "nt": 3, "axis_dtype": dt} for kind in ("decay-sequential", "decay-parallel", "decay-chain") for dt in ("int64", "int32")]
 
     def env(case, rng):
         ks = sorted({round(rng.uniform(0.05, 3.0), 3) for _ in range(case["n"] * 3)})
